@@ -19,7 +19,7 @@ class C04(Prop):
             ">= 2 connections actually interleave at the tap; distinct = distinct interleaving signatures")
     reach = ["same_hosts_diff_client_port", "same_client_port_diff_server", "same_server_diff_clients", "crossed_pair_same_ports", "equal_initial_sequence_numbers", "quic_cid_begins_with_other_connections_cid",
              "resumption_shares_master_secret", "v4_v6_mixed",
-             "tls_quic_mixed", "quic_zero_len_cid", "noise", "n_ge_4", "policy_bursty", "policy_sequential"]
+             "tls_quic_mixed", "quic_zero_len_cid", "noise", "long_key_log_line_across_block_boundary", "n_ge_4", "policy_bursty", "policy_sequential"]
 
     def plan(self, tier):
         p = super().plan(tier)
@@ -112,6 +112,10 @@ class C04(Prop):
             conns.append(gen.gen_udp_noise(R.fork("udp"), k, used, v6=R.chance(30)))
         spec = {"prop": "C04", "conns": conns, "tap": gen.gen_tap(R.fork("tap")), "policy": policy,
                 "keychan": {"mode": "file", "perm_seed": R.bits(30)}}
+        if R.chance(15):
+            # the shared key log is long (unrelated lines in front); one of the connections' lines lies across a block boundary
+            spec["keychan"]["straddle"] = R.bits(30)
+            spec["long_key_log"] = True
         if R.chance(30):
             from .base import random_cli
             spec["cli"] = random_cli(R.fork("cli"), [c for c in conns if c["proto"] in ("tls", "quic")], allow=("m", "a", "p"))
@@ -208,6 +212,8 @@ class C04(Prop):
             out.count("reach:noise")
         if len(conns) >= 4:
             out.count("reach:n_ge_4")
+        if spec.get("long_key_log"):
+            out.count("reach:long_key_log_line_across_block_boundary")
         if spec.get("policy") in ("bursty", "sequential"):
             out.count("reach:policy_" + spec["policy"])
 
